@@ -170,6 +170,15 @@ def entries(tier):
         add('macro-adv-%d' % i, mod([{'k': 'value', 'name': 'before', 'oid': ['x', 1]},
                                      {'k': 'macro', 'name': 'OBJECT-TYPE', 'body': body},
                                      {'k': 'value', 'name': 'after', 'oid': ['x', 2]}]))
+    # comments and quoted strings inside the skipped sections (not recognised there: K36)
+    for i, body in enumerate([' ::= BEGIN TYPE NOTATION ::= "x" -- the END of the type notation\n VALUE NOTATION ::= value(VALUE INTEGER) ',
+                              ' ::= BEGIN TYPE NOTATION ::= "THE END OF IT" VALUE NOTATION ::= value(VALUE INTEGER) ']):
+        add('macro-cmt-%d' % i, mod([{'k': 'value', 'name': 'before', 'oid': ['x', 1]},
+                                     {'k': 'macro', 'name': 'OBJECT-TYPE', 'body': body},
+                                     {'k': 'value', 'name': 'after', 'oid': ['x', 2]}]))
+    for i, body in enumerate([' { a INTEGER, -- closing } in a comment\n b INTEGER }', ' { a INTEGER -- opening { in a comment\n }']):
+        add('choice-cmt-%d' % i, mod([{'k': 'choice', 'name': 'MyChoice', 'body': body},
+                                      {'k': 'value', 'name': 'after', 'oid': ['x', 1]}]))
     for i, body in enumerate([' { a INTEGER { x(1) }, b INTEGER }', ' { a BITS { p(0), q(1) }, b SEQUENCE { c INTEGER { y(2) } } }']):
         add('choice-adv-%d' % i, mod([{'k': 'choice', 'name': 'MyChoice', 'body': body},
                                       {'k': 'value', 'name': 'after', 'oid': ['x', 1]}]))
